@@ -14,10 +14,15 @@ Scenario (JSON):
         ['api', i, v]     PATCH /ports/p<i>/value through the real API function (ports without expression only)
         ['expr', i, e]    set (e != None) or clear the expression attribute of port i
         ['en', i, b]      enable / disable port i
+        ['readd', i]      DELETE /ports/p<i> then POST /ports again (real virtual source ports only): a fresh port, enabled,
+                          without value
         ['fault', i, m]   driver READ FAULT on source port i: from now on its read_value raises an Exception (m = 'err':
                           the hub then retries that port only every _PORT_READ_ERROR_RETRY_INTERVAL seconds) or SkipRead
                           (m = 'skip'); m = None: the driver recovers. Lasts across bursts until recovered.
-  <expr> = ['p', i] | ['lit', k] | [fname, e1, …]   with fname one of ADD SUB MUL IF GT EQ NOT AND OR AVAILABLE DEFAULT
+  port spec extras: 'hlat': [ms…] latencies of the driver's handle_enable / handle_disable hooks (per call);
+        'virt': True = a REAL qtoggleserver.core.vports.VirtualPort created through POST /ports (no latencies; calls are
+        observed by wrapping the instance's bound read_value / write_value, the class's own methods do the work)
+  <expr> = ['p', i] | ['lit', k] | ['una'] (the literal `unavailable`) | [fname, e1, …]   with fname one of ADD SUB MUL IF GT EQ NOT AND OR AVAILABLE DEFAULT
 """
 import asyncio
 
@@ -32,13 +37,15 @@ def expr_text(e) -> str:
         return f'$p{e[1]}'
     if e[0] == 'lit':
         return str(e[1])
+    if e[0] == 'una':
+        return 'unavailable'
     return f'{e[0]}(' + ', '.join(expr_text(a) for a in e[1:]) + ')'
 
 
 def expr_deps(e) -> set:
     if e[0] == 'p':
         return {e[1]}
-    if e[0] == 'lit':
+    if e[0] in ('lit', 'una'):
         return set()
     out = set()
     for a in e[1:]:
@@ -54,6 +61,8 @@ def eval_tiny(e, view):
     k = e[0]
     if k == 'lit':
         return ('val', e[1])
+    if k == 'una':
+        return ('na',)
     if k == 'p':
         c = view.get(e[1], 'dis')
         if c == 'dis':
@@ -155,9 +164,12 @@ class Hub:
             when the call completes); every call is logged with virtual timestamps."""
             WRITABLE = True
 
-            def __init__(self, id_, type_, reg, rlat, wlat, sample='end'):
+            def __init__(self, id_, type_, reg, rlat, wlat, sample='end', hlat=()):
                 super().__init__(id_)
                 self.sample = sample
+                self.vtype = type_
+                self.hlat = list(hlat) or [0]
+                self.n_hook = 0
                 self._type = type_
                 if type_ == 'number':
                     self._integer = True
@@ -192,6 +204,18 @@ class Hub:
                 finally:
                     self.reads_in_flight -= 1
 
+            async def _hook(self):
+                lat = self.hlat[self.n_hook % len(self.hlat)]
+                self.n_hook += 1
+                if lat:
+                    await asyncio.sleep(lat / 1000.0)
+
+            async def handle_enable(self):      # the driver is being enabled (slow hardware, remote device …)
+                await self._hook()
+
+            async def handle_disable(self):
+                await self._hook()
+
             async def write_value(self, value):
                 lat = self.wlat[self.n_write % len(self.wlat)]
                 self.n_write += 1
@@ -213,6 +237,55 @@ class Hub:
         return int(round(self.loop.time() * 1000))
 
     # --------------------------------------------------------------------------------------------------------------
+    def _handler(self):
+        class Req:
+            headers = {}
+            method = 'POST'
+            path = ''
+            query_arguments = {}
+            body = b''
+
+        class Handler:
+            access_level = self.core_api.ACCESS_LEVEL_ADMIN
+            username = 'u'
+            request = Req()
+        return Handler()
+
+    async def _add_virtual(self, i, type_):
+        """POST /ports through the real API function: a real VirtualPort, enabled, no value. The instance's bound
+        read_value / write_value are wrapped to count and log the calls; the class's own methods do the work."""
+        params = {'id': f'p{i}', 'type': type_}
+        if type_ == 'number':
+            params['integer'] = True
+        await self.api_ports.post_ports(self._handler(), params)
+        p = self.core_ports.get(f'p{i}')
+        p.vtype, p.scale, p.fault, p.sample = type_, 1, None, 'end'
+        p.rlat, p.wlat, p.hlat = [0], [0], [0]
+        p.n_read = p.n_read_done = p.n_fail = p.n_write = p.reads_in_flight = p.writes_in_flight = 0
+        p.write_calls = []
+        p.reg = None
+        real_read, real_write, hub = p.read_value, p.write_value, self
+
+        async def read_value():
+            p.n_read += 1
+            v = await real_read()
+            p.reg = canon(v)
+            p.n_read_done += 1
+            return v
+
+        async def write_value(value):
+            p.n_write += 1
+            t0 = hub.now_ms()
+            try:
+                return await real_write(value)
+            finally:
+                p.write_calls.append((t0, hub.now_ms(), canon(value)))
+        p.read_value, p.write_value = read_value, write_value
+        return p
+
+    async def _del_virtual(self, p):
+        await self.api_ports.delete_port(self._handler(), p.get_id())
+
     async def _api_write(self, port, v):
         class Req:
             headers = {}
@@ -225,7 +298,7 @@ class Hub:
             access_level = self.core_api.ACCESS_LEVEL_ADMIN
             username = 'u'
             request = Req()
-        val = bool(v) if port._type == 'boolean' else v
+        val = bool(v) if port.vtype == 'boolean' else v
         try:
             await self.api_ports.patch_port_value(Handler(), port.get_id(), val)
             return 'ok'
@@ -239,7 +312,7 @@ class Hub:
         p = ports[op[2]]
         if kind == 'src':
             v = op[3]
-            p.reg = (bool(v) if p._type == 'boolean' else v * p.scale) if v is not None else None
+            p.reg = (bool(v) if p.vtype == 'boolean' else v * p.scale) if v is not None else None
         elif kind == 'fault':
             p.fault = op[3]
             p.n_fail = 0
@@ -256,6 +329,9 @@ class Hub:
                 await p.enable()
             else:
                 await p.disable()
+        elif kind == 'readd':
+            await self._del_virtual(p)
+            ports[op[2]] = await self._add_virtual(op[2], p.vtype)
         else:
             raise ValueError(kind)
 
@@ -306,19 +382,30 @@ class Hub:
         specs = case['ports']
         def scale(s):
             return 2 if s.get('xf') and s['type'] == 'number' else 1
-        args = [{'driver': self.RegPort, 'id_': f'p{i}', 'type_': s['type'],
-                 'reg': (bool(s['reg']) if s['type'] == 'boolean' else s['reg'] * scale(s)) if s['reg'] is not None else None,
-                 'rlat': s['rlat'], 'wlat': s['wlat'], 'sample': s.get('sample', 'end')} for i, s in enumerate(specs)]
-        ports = await cp.load(args, trigger_add=False)
+        ports = []
         obs = {'bursts': [], 'setup': []}
         try:
+            for i, s in enumerate(specs):       # registry (= polling) order is the index order
+                if s.get('virt'):
+                    ports.append(await self._add_virtual(i, s['type']))
+                    if not s.get('enabled', True):
+                        await ports[-1].disable()
+                    continue
+                args = {'driver': self.RegPort, 'id_': f'p{i}', 'type_': s['type'],
+                        'reg': ((bool(s['reg']) if s['type'] == 'boolean' else s['reg'] * scale(s))
+                                if s['reg'] is not None else None),
+                        'rlat': s['rlat'], 'wlat': s['wlat'], 'sample': s.get('sample', 'end'),
+                        'hlat': s.get('hlat', ())}
+                ports.extend(await cp.load([args], trigger_add=False))
             for p, s in zip(ports, specs):
+                if s.get('virt'):
+                    continue
                 p.scale = scale(s)
                 if p.scale == 2:    # mutually inverse write / read transforms: the driver sees twice the port value
                     await p.set_attr('transform_write', 'MUL($, 2)')
                     await p.set_attr('transform_read', 'DIV($, 2)')
             for p, s in zip(ports, specs):
-                if s.get('enabled', True):
+                if s.get('enabled', True) and not s.get('virt'):
                     await p.enable()
             for i, (p, s) in enumerate(zip(ports, specs)):
                 if s.get('expr') is not None:
@@ -347,6 +434,8 @@ class Hub:
                 state = []
                 for i, p in enumerate(ports):
                     e = p.get_expression()
+                    if len(p.write_calls) < writes_before[i]:
+                        writes_before[i] = 0        # the port object was replaced (readd)
                     state.append({
                         'enabled': p.is_enabled(),
                         'value': canon(p.get_last_read_value()),
@@ -361,5 +450,8 @@ class Hub:
         finally:
             await cm.cleanup()
             for p in ports:
-                await p.remove(persisted_data=False)
+                if isinstance(p, self.RegPort):
+                    await p.remove(persisted_data=False)
+                else:
+                    await self._del_virtual(p)
         return obs
